@@ -47,11 +47,26 @@ type c01HTMLerStr struct{ S string }
 func (h c01HTMLerStr) HTML() template.HTML { return template.HTML(h.S) }
 func (h c01HTMLerStr) String() string      { return "c01-stringer-not-html" }
 
+// trusted HTML in the usual Go style: HTML() has a pointer receiver and the template is handed a *c01PHTMLer
+// (the pointer is the HTMLer; what it points to is not)
+type c01PHTMLer struct{ S string }
+
+func (h *c01PHTMLer) HTML() template.HTML { return template.HTML(h.S) }
+
+// pointer-receiver HTMLer whose element type is a fmt.Stringer (value receiver): still an HTMLer, HTML() must appear
+type c01PHTMLerStr struct{ S string }
+
+func (h *c01PHTMLerStr) HTML() template.HTML { return template.HTML(h.S) }
+func (h c01PHTMLerStr) String() string       { return "c01-stringer-not-html" }
+
 type c01Inner struct {
 	S string
 	H template.HTML
 	E c01HTMLer
 	I interface{}
+	P *c01PHTMLer
+	Q *string
+	X plush.HTMLer
 }
 
 type c01Struct struct {
@@ -67,11 +82,24 @@ type c01Struct struct {
 	Ms  map[string]string
 	Mh  map[string]template.HTML
 	Mi  map[string]interface{}
+	// pointer-typed and HTMLer-interface-typed members
+	P  *c01PHTMLer
+	Q  *string
+	X  plush.HTMLer
+	Ps []*c01PHTMLer
+	Qs []*string
+	Xs []plush.HTMLer
+	Mp map[string]*c01PHTMLer
+	Mq map[string]*string
+	Mx map[string]plush.HTMLer
 }
 
 func (s c01Struct) GetS() string        { return s.S }
 func (s c01Struct) GetH() template.HTML { return s.H }
 func (s c01Struct) GetI() interface{}   { return s.I }
+func (s c01Struct) GetP() *c01PHTMLer   { return s.P }
+func (s c01Struct) GetQ() *string       { return s.Q }
+func (s c01Struct) GetX() plush.HTMLer  { return s.X }
 
 // methods with parameters (a method call binds its arguments the same way a helper call does)
 func (s c01Struct) Echo(i interface{}) interface{}           { return i }
@@ -80,10 +108,14 @@ func (s c01Struct) EchoH(h template.HTML) template.HTML      { return h }
 func (s c01Struct) EchoV(xs ...interface{}) interface{}      { return xs[len(xs)-1] }
 func (s *c01Struct) PEcho(i interface{}) interface{}         { return i }
 func (s c01Struct) EchoVH(xs ...template.HTML) template.HTML { return xs[len(xs)-1] }
+func (s c01Struct) EchoX(x plush.HTMLer) plush.HTMLer        { return x }
+func (s c01Struct) EchoP(p *c01PHTMLer) *c01PHTMLer          { return p }
 
 type c01Box struct{ V interface{} }
 type c01BoxS struct{ S string }
 type c01BoxH struct{ H template.HTML }
+type c01BoxX struct{ X plush.HTMLer }
+type c01BoxP struct{ P *c01PHTMLer }
 
 type c01Case struct {
 	Kind string
@@ -201,6 +233,17 @@ var c01Ops = []c01Op{
 	// template.HTML only
 	{"idh", "H", 1}, {"htmls0", "H", 1}, {"boxh", "H", 1}, {"forhtmls", "H", 1}, {"maph", "H", 1},
 	{"vh", "H", 1}, {"vfh0", "H", 1}, {"mechoh", "H", 1}, {"idhhc", "H", 1},
+	// any HTMLer (value or pointer): bound to a parameter / field / element / result typed as the HTMLer interface
+	{"idx", "X", 1}, {"xs0", "X", 1}, {"boxx", "X", 1}, {"forxs", "X", 1}, {"mapx", "X", 1},
+	{"vx", "X", 1}, {"vfx0", "X", 1}, {"mechox", "X", 1}, {"idxhc", "X", 1},
+	// pointer HTMLer only (HTML() has a pointer receiver): bound to a parameter / field / element / result typed *T
+	{"idp", "P", 1}, {"ptrs0", "P", 1}, {"boxp", "P", 1}, {"forptrs", "P", 1}, {"mapp", "P", 1},
+	{"vp", "P", 1}, {"mechop", "P", 1}, {"idphc", "P", 1},
+}
+
+// c01Accepts: a step that needs class need takes a value of class cls. A *T HTMLer (class P) is an HTMLer (class X).
+func c01Accepts(need, cls string) bool {
+	return need == "" || need == "*" || need == cls || (need == "X" && cls == "P")
 }
 
 // class of the value after a step, where it differs from the class before it
@@ -235,7 +278,29 @@ var c01OpByName = func() map[string]c01Op {
 
 var c01Emits = []string{"tag", "twice", "ifret", "forret", "arr", "ifaces", "strs", "arrapp", "strsapp"} // strs, strsapp: class S only
 
-var c01Kinds = []string{"str", "html", "htmler", "htmlerstr"}
+// phtmler: *T where only *T has HTML(); phtmlerv: *T where T has HTML() (so *T has it too); phtmlerstr: *T where *T has
+// HTML() and T has String(); pstr: *string (never trusted: wherever the string it points to is emitted, it is string data)
+var c01Kinds = []string{"str", "html", "htmler", "htmlerstr", "phtmler", "phtmlerv", "phtmlerstr", "pstr"}
+
+// the kinds and sources every emit form / every chain of length 2 is run for; the others (pointer kinds, members
+// typed as the HTMLer interface) run the plain tag and one drawn emit form per chain, and chains of length 2 from
+// c01Len2Srcs only
+var c01CoreKinds = map[string]bool{"str": true, "html": true, "htmler": true, "htmlerstr": true}
+var c01XSrcs = []string{"fldX", "innerX", "xslfld", "xmapfld", "methX", "xslice", "xmap", "goX"}
+var c01Len2Srcs = map[string]bool{"var": true, "fldX": true, "slice": true}
+
+func c01IsXSrc(src string) bool {
+	for _, x := range c01XSrcs {
+		if x == src {
+			return true
+		}
+	}
+	return false
+}
+
+func c01Core(kind, src string) bool {
+	return src == "var" || (c01CoreKinds[kind] && !c01IsXSrc(src))
+}
 
 // sources per kind
 var c01Srcs = map[string][]string{
@@ -243,8 +308,19 @@ var c01Srcs = map[string][]string{
 		"meth", "methI", "slice", "islice", "map", "imap", "go", "goI"},
 	"html": {"var", "fld", "fldI", "inner", "ptrfld", "ptrvar", "slfld", "islfld", "mapfld", "imapfld",
 		"meth", "methI", "slice", "islice", "map", "imap", "go", "goI", "rawlit", "rawvar"},
-	"htmler":    {"var", "fld", "fldI", "inner", "ptrfld", "ptrvar", "islfld", "imapfld", "methI", "islice", "imap", "goI"},
-	"htmlerstr": {"var", "fldI", "islfld", "imapfld", "methI", "islice", "imap", "goI"},
+	"htmler": {"var", "fld", "fldI", "inner", "ptrfld", "ptrvar", "islfld", "imapfld", "methI", "islice", "imap", "goI",
+		"fldX", "innerX", "xslfld", "xmapfld", "methX", "xslice", "xmap", "goX"},
+	"htmlerstr": {"var", "fldI", "islfld", "imapfld", "methI", "islice", "imap", "goI",
+		"fldX", "innerX", "xslfld", "xmapfld", "methX", "xslice", "xmap", "goX"},
+	"phtmler": {"var", "fld", "fldI", "inner", "ptrfld", "ptrvar", "slfld", "islfld", "mapfld", "imapfld",
+		"meth", "methI", "slice", "islice", "map", "imap", "go", "goI",
+		"fldX", "innerX", "xslfld", "xmapfld", "methX", "xslice", "xmap", "goX"},
+	"phtmlerv": {"var", "fldI", "islfld", "imapfld", "methI", "islice", "imap", "goI",
+		"fldX", "innerX", "xslfld", "xmapfld", "methX", "xslice", "xmap", "goX"},
+	"phtmlerstr": {"var", "fldI", "islfld", "imapfld", "methI", "islice", "imap", "goI",
+		"fldX", "innerX", "xslfld", "xmapfld", "methX", "xslice", "xmap", "goX"},
+	"pstr": {"var", "fld", "fldI", "inner", "ptrfld", "ptrvar", "slfld", "islfld", "mapfld", "imapfld",
+		"meth", "methI", "slice", "islice", "map", "imap", "go", "goI"},
 }
 
 func c01KindClass(kind string) string {
@@ -253,9 +329,16 @@ func c01KindClass(kind string) string {
 		return "S"
 	case "html":
 		return "H"
+	case "phtmler":
+		return "P"
+	case "pstr":
+		return "Q" // generic steps only
 	}
 	return "X"
 }
+
+// c01Trusted: the kind is typed as trusted HTML when it enters the template
+func c01Trusted(kind string) bool { return kind != "str" && kind != "pstr" }
 
 // c01Literal writes s as a plush string literal, "" if it cannot be written as one.
 func c01Literal(s string) string {
@@ -272,7 +355,9 @@ func c01Literal(s string) string {
 }
 
 func c01Source(kind, src, pay string) (expr string, ok bool) {
-	f := map[string]string{"str": "S", "html": "H", "htmler": "E", "htmlerstr": ""}[kind]
+	f := map[string]string{"str": "S", "html": "H", "htmler": "E", "phtmler": "P", "pstr": "Q"}[kind]
+	typed := f == "S" || f == "H" || f == "P" || f == "Q" // typed slices / maps / methods / Go results exist for these
+	isX := kind != "str" && kind != "html" && kind != "pstr"
 	switch src {
 	case "var":
 		return "p", true
@@ -295,27 +380,44 @@ func c01Source(kind, src, pay string) (expr string, ok bool) {
 	case "ptrvar":
 		return "sp." + f, f != ""
 	case "slfld":
-		return "st." + f + "s[1]", f == "S" || f == "H"
+		return "st." + f + "s[1]", typed
 	case "islfld":
 		return "st.Is[1]", true
 	case "mapfld":
-		return "st.M" + strings.ToLower(f) + `["k"]`, f == "S" || f == "H"
+		return "st.M" + strings.ToLower(f) + `["k"]`, typed
 	case "imapfld":
 		return `st.Mi["k"]`, true
 	case "meth":
-		return "st.Get" + f + "()", f == "S" || f == "H"
+		return "st.Get" + f + "()", typed
 	case "methI":
 		return "st.GetI()", true
 	case "slice":
-		return "sl[1]", f == "S" || f == "H"
+		return "sl[1]", typed
 	case "islice":
 		return "si[1]", true
 	case "map":
-		return `mp["k"]`, f == "S" || f == "H"
+		return `mp["k"]`, typed
 	case "imap":
 		return `mi["k"]`, true
 	case "go":
-		return "gt()", f == "S" || f == "H"
+		return "gt()", typed
+	// members / elements / results typed as the HTMLer interface
+	case "fldX":
+		return "st.X", isX
+	case "innerX":
+		return "st.In.X", isX
+	case "xslfld":
+		return "st.Xs[1]", isX
+	case "xmapfld":
+		return `st.Mx["k"]`, isX
+	case "methX":
+		return "st.GetX()", isX
+	case "xslice":
+		return "sx[1]", isX
+	case "xmap":
+		return `mx["k"]`, isX
+	case "goX":
+		return "gx()", isX
 	case "goI":
 		return "gi()", true
 	}
@@ -427,7 +529,7 @@ func (b *c01Builder) build(i int, e, cls string) string {
 		b.bad = "unknown op " + b.c.Ops[i]
 		return ""
 	}
-	if op.need != "" && op.need != "*" && op.need != cls {
+	if !c01Accepts(op.need, cls) {
 		b.bad = "op " + op.name + " needs class " + op.need + ", value has class " + cls
 		return ""
 	}
@@ -662,6 +764,40 @@ func (b *c01Builder) build(i int, e, cls string) string {
 		return "<%= for (v" + n + ") in htmls" + b.one(i+1) + "(" + e + ") { %>" + next("v"+n) + "<% } %>"
 	case "maph":
 		return next("maph(" + e + `)["k"]`)
+	case "idx":
+		return next("idx(" + e + ")")
+	case "xs0":
+		return next("xs(" + e + ")[0]")
+	case "boxx":
+		return "<% let b" + n + " = boxx(" + e + ") %>" + next("b"+n+".X")
+	case "forxs":
+		return "<%= for (v" + n + ") in xs" + b.one(i+1) + "(" + e + ") { %>" + next("v"+n) + "<% } %>"
+	case "mapx":
+		return next("mapx(" + e + `)["k"]`)
+	case "vx":
+		return next("vx(hx, " + e + ")")
+	case "vfx0":
+		return next("vfx0(" + e + ", hx)")
+	case "mechox":
+		return next("st.EchoX(" + e + ")")
+	case "idxhc":
+		return next("idxhc(" + e + ")")
+	case "idp":
+		return next("idp(" + e + ")")
+	case "ptrs0":
+		return next("ptrs(" + e + ")[0]")
+	case "boxp":
+		return "<% let b" + n + " = boxp(" + e + ") %>" + next("b"+n+".P")
+	case "forptrs":
+		return "<%= for (v" + n + ") in ptrs" + b.one(i+1) + "(" + e + ") { %>" + next("v"+n) + "<% } %>"
+	case "mapp":
+		return next("mapp(" + e + `)["k"]`)
+	case "vp":
+		return next("vp(hp, " + e + ")")
+	case "mechop":
+		return next("st.EchoP(" + e + ")")
+	case "idphc":
+		return next("idphc(" + e + ")")
 	}
 	b.bad = "unhandled op " + op.name
 	return ""
@@ -683,7 +819,7 @@ func c01Build(c c01Case) (c01Built, string) {
 	if b.bad != "" {
 		return c01Built{}, b.bad
 	}
-	verb := c.Kind != "str"
+	verb := c01Trusted(c.Kind)
 	for _, o := range c.Ops {
 		if o == "raw" {
 			verb = true
@@ -729,6 +865,37 @@ func c01Env(c c01Case, partials map[string]string) *plush.Context {
 		st.E, st.In.E, st.Ptr.E = x, x, x
 	case "htmlerstr":
 		v = c01HTMLerStr{c.Pay}
+	case "phtmler":
+		x := &c01PHTMLer{c.Pay}
+		v = x
+		st.P, st.In.P, st.Ptr.P = x, x, x
+		st.Ps = []*c01PHTMLer{{"z"}, x}
+		st.Mp = map[string]*c01PHTMLer{"k": x}
+		ctx.Set("sl", []*c01PHTMLer{{"z"}, x})
+		ctx.Set("mp", map[string]*c01PHTMLer{"k": x})
+		ctx.Set("gt", func() *c01PHTMLer { return x })
+	case "phtmlerv":
+		v = &c01HTMLer{c.Pay}
+	case "phtmlerstr":
+		v = &c01PHTMLerStr{c.Pay}
+	case "pstr":
+		q, z := new(string), new(string)
+		*q, *z = c.Pay, "z"
+		v = q
+		st.Q, st.In.Q, st.Ptr.Q = q, q, q
+		st.Qs = []*string{z, q}
+		st.Mq = map[string]*string{"k": q}
+		ctx.Set("sl", []*string{z, q})
+		ctx.Set("mp", map[string]*string{"k": q})
+		ctx.Set("gt", func() *string { return q })
+	}
+	if x, ok := v.(plush.HTMLer); ok {
+		st.X, st.In.X, st.Ptr.X = x, x, x
+		st.Xs = []plush.HTMLer{c01HTMLer{"z"}, x}
+		st.Mx = map[string]plush.HTMLer{"k": x}
+		ctx.Set("sx", []plush.HTMLer{c01HTMLer{"z"}, x})
+		ctx.Set("mx", map[string]plush.HTMLer{"k": x})
+		ctx.Set("gx", func() plush.HTMLer { return x })
 	}
 	st.I, st.In.I, st.Ptr.I = v, v, v
 	st.Is = []interface{}{c01FillS, v}
@@ -763,6 +930,23 @@ func c01Env(c c01Case, partials map[string]string) *plush.Context {
 	ctx.Set("idiop", func(i interface{}, opts map[string]interface{}, help plush.HelperContext) interface{} { return i })
 	ctx.Set("optv", func(opts map[string]interface{}, help plush.HelperContext) interface{} { return opts["v"] })
 	ctx.Set("idx", func(x plush.HTMLer) plush.HTMLer { return x })
+	ctx.Set("hp", &c01PHTMLer{string(c01TrustedZ)})
+	// parameters / results / elements typed as the HTMLer interface; the filler next to the value is a trusted HTMLer
+	ctx.Set("vx", func(xs ...plush.HTMLer) plush.HTMLer { return xs[len(xs)-1] })
+	ctx.Set("vfx0", func(a plush.HTMLer, xs ...plush.HTMLer) plush.HTMLer { return a })
+	ctx.Set("idxhc", func(x plush.HTMLer, help plush.HelperContext) plush.HTMLer { return x })
+	ctx.Set("xs", func(x plush.HTMLer) []plush.HTMLer { return []plush.HTMLer{x, c01HTMLer{string(c01FillH)}} })
+	ctx.Set("xs1", func(x plush.HTMLer) []plush.HTMLer { return []plush.HTMLer{x} })
+	ctx.Set("mapx", func(x plush.HTMLer) map[string]plush.HTMLer { return map[string]plush.HTMLer{"k": x} })
+	ctx.Set("boxx", func(x plush.HTMLer) c01BoxX { return c01BoxX{x} })
+	// the same typed as the pointer; the filler is a pointer HTMLer too
+	ctx.Set("idp", func(p *c01PHTMLer) *c01PHTMLer { return p })
+	ctx.Set("vp", func(ps ...*c01PHTMLer) *c01PHTMLer { return ps[len(ps)-1] })
+	ctx.Set("idphc", func(p *c01PHTMLer, help plush.HelperContext) *c01PHTMLer { return p })
+	ctx.Set("ptrs", func(p *c01PHTMLer) []*c01PHTMLer { return []*c01PHTMLer{p, {string(c01FillH)}} })
+	ctx.Set("ptrs1", func(p *c01PHTMLer) []*c01PHTMLer { return []*c01PHTMLer{p} })
+	ctx.Set("mapp", func(p *c01PHTMLer) map[string]*c01PHTMLer { return map[string]*c01PHTMLer{"k": p} })
+	ctx.Set("boxp", func(p *c01PHTMLer) c01BoxP { return c01BoxP{p} })
 	ctx.Set("ids", func(s string) string { return s })
 	ctx.Set("idh", func(h template.HTML) template.HTML { return h })
 	ctx.Set("idi", func(i interface{}) interface{} { return i })
@@ -1014,6 +1198,26 @@ func c01Shrink(c c01Case, problem string) c01Case {
 			c = x
 		}
 	}
+	// the plain struct field stands for the other struct routes (inner struct, pointer to struct, a struct built by a
+	// Go helper step): one family per root cause
+	if c.Src != "var" && c.Src != "fld" {
+		x := c
+		x.Src = "fld"
+		if same(x) {
+			c = x
+		}
+	}
+	if c.Src != "fld" {
+		for i := range c.Ops {
+			x := c
+			x.Src = "fld"
+			x.Ops = append(append([]string{}, c.Ops[:i]...), c.Ops[i+1:]...)
+			if same(x) {
+				c = x
+				break
+			}
+		}
+	}
 	for _, k := range []string{"str", "html"} {
 		if c.Kind == k {
 			break
@@ -1084,7 +1288,7 @@ func c01RandOps(r *Rng, kind string, d int) ([]string, string) {
 	ops := []string{}
 	for len(ops) < d {
 		op := Pick(r, c01Ops)
-		if op.need != "" && op.need != "*" && op.need != cls {
+		if !c01Accepts(op.need, cls) {
 			continue
 		}
 		if c01Promotes[op.name] && !r.Chance(25) {
@@ -1109,18 +1313,22 @@ func c01RandOps(r *Rng, kind string, d int) ([]string, string) {
 func init() {
 	oracles["C01"] = func(cfg Config) []*Report {
 		rep := NewReport("C01", "C01", cfg)
-		rep.Rule = "case = kind(str|html|htmler|htmlerstr) x source(19 ways a Go value enters: variable, literal, struct/pointer/inner field, " +
-			"typed and interface slices/maps, method, Go helper result, raw()) x ops(a chain of value-preserving plumbing steps: let, assignment, " +
+		rep.Rule = "case = kind(str|html|htmler|htmlerstr and the pointer kinds phtmler = *T with HTML() on *T only | phtmlerv = *T with HTML() on T | " +
+			"phtmlerstr = *T with HTML() on *T and String() on T | pstr = *string) x source(27 ways a Go value enters: variable, literal, struct/pointer/inner field, " +
+			"typed and interface slices/maps, method, Go helper result, raw(), and for every HTMLer kind the same members/elements/results typed as the HTMLer interface) x ops(a chain of value-preserving plumbing steps: let, assignment, " +
 			"array/hash literal + index, user fn return/template body/2 params, Go helpers returning the value, struct boxes, for over literal/[]string/" +
 			"[]template.HTML/[]interface{}/map, if/else/else-if, fn frames, block helpers calling Block once/twice/BlockWith, contentFor/contentOf with and " +
 			"without data, contentOf block fallback, partial with data/layout/outer variable and with .js/.html names and layouts and a contentType passed as data, " +
 			"Go helpers and methods binding the value to fixed / variadic / HelperContext / options-map parameters, " +
 			"a Go string bound to a template.HTML / ...template.HTML / HTMLer parameter (refused today; if accepted it is still string data), string + string, string + every other operand kind " +
 			"(template.HTML variable / raw() / Go func result / interface result / contentOf() / partial() / block helper result, HTMLer, user fn result, int, float, bool, array), " +
-			"trusted + string, string filler + routed value, raw()) x emit(tag, twice, if-return, for-return, " +
+			"trusted + string, string filler + routed value, raw(), " +
+			"an HTMLer (value or pointer) bound to parameters / variadics / struct fields / slice and map elements / loop variables typed as the HTMLer interface, " +
+			"a pointer HTMLer bound to the same typed as *T) x emit(tag, twice, if-return, for-return, " +
 			"array, []interface{}, []string, array + value, []string + string) x contentType of the context (none, text/html, two javascript ones; every one for chains with a partial step, 30% of the random chains) " +
 			"x payload(marker + bytes over <>&'\" entities, multi-byte runes, invalid UTF-8, NUL, backslash, tag delimiters); " +
-			"every kind x source x chain of length <= 1 x emit form, in thorough also every chain of length 2 (one drawn emit form each), " +
+			"every kind x source x chain of length <= 1 x emit form (pointer kinds and HTMLer-typed sources away from the plain variable: the plain tag and one drawn emit form), " +
+			"in thorough also every chain of length 2 (one drawn emit form each; pointer kinds and HTMLer-typed sources from var / fldX / slice only), " +
 			"then random chains of depth 2..3 (quick) / 2..5 (thorough); a string filler and a trusted filler with their own markers travel next to the payload " +
 			"through arrays, loops and slices and are checked the same way; " +
 			"non-trivial = rendered without error, the payload was emitted at least once and it contains one of <>&'\"; distinct by case text. " +
@@ -1128,6 +1336,8 @@ func init() {
 		rep.Notes = append(rep.Notes,
 			"string payloads: every located emission must equal template.HTMLEscapeString(payload); the number of emissions of a string is not checked (dropping a string is not a C01 matter), it is only tagged (str-count-ok / str-count-differs)",
 			"trusted payloads (template.HTML, HTMLer, raw()): verbatim occurrences must equal the number of emissions the route performs",
+			"a pointer whose method set has HTML() is an HTMLer like any other (kinds phtmler, phtmlerv, phtmlerstr): it must come out verbatim exactly as often as the route emits it, whichever static type (interface{}, the HTMLer interface, *T) the route gives it",
+			"*string (kind pstr): whether a pointer to a string prints at all is left open (today it prints nothing except through a struct field, which member access dereferences); wherever the string it points to does appear it must be escaped",
 			"string + trusted HTML: the string operand is a Go string and must come out escaped (payload on the left: cat* steps; string filler on the left of any routed value: fzcat); the form of the trusted right operand inside that result is left open and not checked",
 			"left open on purpose: whole slices/maps of types compiler.write has no case for ([]template.HTML, maps), fmt.Stringer / named string types, time formats, "+
 				"the text of a partial with a non-.js extension under a javascript contentType (plush JS-escapes it; such cases run for panics/hangs only, tag js-escaped-partial-open)",
@@ -1166,7 +1376,7 @@ func init() {
 				} else {
 					rep.Tag("payload-emitted")
 				}
-				if c.Kind == "str" {
+				if !c01Trusted(c.Kind) {
 					if bt, _ := c01Build(c); !bt.verbatim {
 						if v.emitted == bt.count {
 							rep.Tag("str-count-ok")
@@ -1242,10 +1452,21 @@ func init() {
 		}
 		for _, kind := range c01Kinds {
 			for _, src := range c01Srcs[kind] {
+				core := c01Core(kind, src)
 				for _, ch := range chains {
 					emits := c01Emits
 					if len(ch) == 2 {
+						if !core && !c01Len2Srcs[src] {
+							continue
+						}
 						emits = []string{Pick(r, c01Emits)}
+					} else if !core {
+						// pointer kinds / HTMLer-typed members away from the plain variable: the plain tag and one drawn emit form
+						if em := Pick(r, c01Emits[1:]); (em == "strs" || em == "strsapp") && kind != "str" {
+							emits = c01Emits[:1]
+						} else {
+							emits = []string{"tag", em}
+						}
 					}
 					// the contentType of the context matters to partial(): chains with a partial step run under each
 					cts := c01CTs[:1]
